@@ -112,6 +112,16 @@ def generate(R, tier):
         yield {"stream": "http-big", "http": (b"GET" + b" " * big + b"/ HTTP/1.1" + eol + b"Host: a" + eol + eol).hex()}
         yield {"stream": "http-big", "http": (b"GET / HTTP/1.1" + b" " * big + eol + b"Host: a" + eol + eol).hex()}
         yield {"stream": "http-big", "http": (b"HTTP/1.1 200 " + b"OK " * (big // 3) + eol + b"Server: a" + eol + eol).hex()}
+    # hostile values of the headers pyp0f itself interprets (dates with absurd numbers, huge zones, non-ASCII, empty ...)
+    dates = [b"Tue, 01 Mar 2011 20:45:16 +99999999999999", b"Tue, 01 Mar 2011 20:45:16 -99999999999999999999", b"Tue, 01 Mar 99999999999 20:45:16 GMT",
+             b"Tue, 99 Mar 2011 20:45:16 GMT", b"Tue, 01 Mar 2011 99:99:99 GMT", b"Tue, 01 Mar 0000 00:00:00 GMT", b"0", b"", b" ", b"\xff\xfe", b"Tue, 01 M\xc3\xa4r 2011",
+             b"1 Jan 1 0:0:0 +2400", b"31 Dec 9999 23:59:59 -2359", b"Tue, 01 Mar 2011 20:45:16 +" + b"9" * 400, b"(" * 300, b"Tue, 01 Mar 2011 20:45:16 GMT",
+             b"1e9", b"-1", b"9" * 30, b",,,,", b"Mon, 31 Feb 2011 00:00:00 GMT"]
+    for eol in (b"\r\n", b"\n"):
+        for d in dates:
+            for name in (b"Date", b"date", b"Via", b"Accept-Language", b"Content-Length", b"Last-Modified"):
+                yield {"stream": "http-interpreted-headers", "http": (b"HTTP/1.1 200 OK" + eol + name + b": " + d + eol + b"Server: Apache" + eol + eol).hex()}
+                yield {"stream": "http-interpreted-headers", "http": (b"GET / HTTP/1.1" + eol + b"Host: a" + eol + name + b": " + d + eol + eol).hex()}
     # packets that get as far as the window test of the database's mss*N signatures (everything else matches), for every peer-MSS argument
     for fl, sec_ttl in ((2, 64), (0x12, 64)):
         for mss in (100, 111, 1460):
